@@ -830,3 +830,31 @@ Definition model_stale_test : stale_test := StaleIfSomeNew.
 Definition stored_narrow_with (t : stale_test) (cur cons : list nat) (v : value) (c : cond) (pol : bool) : value :=
   if stored_applies t cur cons then narrow v c pol else v.
 Definition stored_narrow := stored_narrow_with model_stale_test.
+
+(* the is_instance / is_value branches of Constraint.apply_to_value as decision skeletons *)
+Inductive ares := ADrop | AValue | AInner | ANarrowed.
+Definition isinstance_apply_skel (is_any positive is_known kinst is_typed is_synth sub_tc sub_ct promo is_sub sub_typed cinst : bool) : ares :=
+  if is_any then (if positive then ANarrowed else AInner)
+  else if is_known then (if Bool.eqb kinst positive then AValue else ADrop)
+  else if is_typed then
+    (if is_synth then AValue
+     else if positive then (if sub_tc then AValue else if sub_ct || promo then ANarrowed else ADrop)
+     else (if sub_tc then ADrop else AValue))
+  else if is_sub then
+    (if negb sub_typed then AValue else if Bool.eqb cinst positive then AValue else ADrop)
+  else ADrop.
+Definition isvalue_apply_skel (is_any positive is_known same is_typed vinst promo is_sub sub_typed v_is_type t_is_type sub_vt promo_vt : bool) : ares :=
+  if positive then
+    (if is_any then ANarrowed
+     else if is_known then (if same then AValue else ADrop)
+     else if is_typed then (if vinst || promo then ANarrowed else ADrop)
+     else if is_sub then (if sub_typed && v_is_type && t_is_type && (sub_vt || promo_vt) then ANarrowed else ADrop)
+     else ADrop)
+  else if is_known && same then ADrop else AValue.
+Definition ainterp (r : ares) (s : sval) (inner narrowed : sval) : list sval :=
+  match r with ADrop => [] | AValue => [s] | AInner => [inner] | ANarrowed => [narrowed] end.
+Definition is_any_b (b : bval) : bool := match b with VAny => true | _ => false end.
+Definition is_sub_b (b : bval) : bool := match b with VSub _ => true | _ => false end.
+Definition sub_cls (b : bval) : cls := match b with VSub t => t | _ => CObject end.
+Definition is_class_obj (l : obj) : bool := match l with OClass _ => true | _ => false end.
+Definition class_obj (l : obj) : cls := match l with OClass k => k | _ => CObject end.
